@@ -57,7 +57,13 @@ Section NumRe.
     | None => []
     end.
 
-  Definition int_match (x : str) : option (str * str * str) :=
+  (* Prefix group:  0[xX](?=[\da-fA-F])  |  0[bBxX]*  |  <empty>.
+     First alternative (added with the repair of K1): `0x` / `0X` directly followed by a hexadecimal digit (look-ahead,
+     not consumed).  Its continuation cannot fail: the look-behind (?<=0[xX]) of the Constant group holds, [\da-fA-F]+
+     matches at least the digit the look-ahead saw, and the Suffix group has an empty alternative - so the matcher never
+     backtracks out of it.  The old alternatives follow for the inputs where the look-ahead fails (0x, 0xx1, 0bb1, 0xg). *)
+  (* the alternatives  0[bBxX]*  |  <empty>  of the Prefix group (the whole pattern before the repair of K1) *)
+  Definition int_match_old (x : str) : option (str * str * str) :=
     let plain := match int_const false x with
                  | Some (c, r) => Some ([], c, int_suffix c r)
                  | None => None
@@ -71,6 +77,22 @@ Section NumRe.
         end
     | _ => plain
     end.
+
+  (* the look-ahead of the first alternative: 0, then x/X, then a hexadecimal digit *)
+  Definition hex_start (x : str) : bool :=
+    match x with
+    | a :: r => N.eqb a 48 && match r with
+                              | xc :: r2 => in_set [120; 88]%N xc && match r2 with h :: _ => ishex h | [] => false end
+                              | [] => false
+                              end
+    | [] => false
+    end.
+  (* (each test looks only at the character it needs, so that the matcher can be evaluated on a text with an unknown tail) *)
+
+  Definition int_match (x : str) : option (str * str * str) :=
+    if hex_start x then
+      let (c, r) := span ishex (skipn 2 x) in Some (firstn 2 x, c, int_suffix c r)
+    else int_match_old x.
 
   (* ---------------------------------------------------------------- the Exponent group *)
   (* alternative 3:  (?:[E][+-]?(?:[.D]+)?)+   (hex pattern: one of `.[` or a hex digit, then `]`+) *)
